@@ -227,7 +227,7 @@ def e_text(e, need=0):
         s = char_const(e[1])
     elif t == "bool":
         s = "true" if e[1] else "false"
-    elif t in ("enum", "var"):
+    elif t in ("enum", "var", "ident"):
         s = e[1]
     elif t == "len":
         s = e[1] + ".len"
@@ -297,7 +297,7 @@ def s_text(st, ind="  "):
         return ind + st[1] + "();"
     if k == "set":
         e = st[2]
-        if e[0] in ("num", "char", "bool", "enum"):
+        if e[0] in ("num", "char", "bool", "enum", "ident"):
             return ind + "%s = %s;" % (st[1], e_text(e))
         return ind + "%s = [%s];" % (st[1], e_text(e))
     if k == "setstr":
@@ -345,7 +345,7 @@ def s_text(st, ind="  "):
 def arg_text(a):
     if a[0] in ("lit", "liti", "re", "bre", "cat", "end", "mparam") or (a[0] == "bin" and isinstance(a[1], (bytes, bytearray))):
         return m_text(a)
-    if a[0] in ("num", "char", "bool"):
+    if a[0] in ("num", "char", "bool", "enum", "ident"):
         return e_text(a)
     return "[" + e_text(a) + "]"
 
